@@ -503,4 +503,63 @@ theorem capsule3_rotation_wrt_y (T : Trig K) (eps : K) (hsq : LawfulSqrt sq) (c 
   rw [key]
   exact ⟨hrot, hq⟩
 
+
+/-! ### convex polytopes: the point buffer -/
+
+private theorem fold_scaled (s : V3 K) :
+    letI := fieldNum K sq
+    ∀ (pts : List (V3 K)) (w : List K) (acc : V3 K),
+      (List.zipWith (fun q x => q.smul x) (pts.map (fun p => p.cmul s)) w).foldl V3.add (acc.cmul s)
+        = ((List.zipWith (fun q x => q.smul x) pts w).foldl V3.add acc).cmul s := by
+  letI := fieldNum K sq
+  intro pts
+  induction pts with
+  | nil => intro w acc; simp
+  | cons q qs ih =>
+    intro w acc
+    cases w with
+    | nil => simp
+    | cons x xs =>
+      simp only [List.map_cons, List.zipWith_cons_cons, List.foldl_cons]
+      have e : (acc.cmul s).add ((q.cmul s).smul x) = (acc.add (q.smul x)).cmul s := by
+        simp only [V3.cmul, V3.add, V3.smul]; congr 1 <;> ring
+      rw [e]; exact ih xs _
+
+/-- **convex polytopes (`ConvexPolyhedron::scaled`, and the hulls of `TriMesh` / `Polyline` vertices)**: the convex hull of the
+scaled point buffer contains `s∘p` whenever the hull of the original points contains `p` — any scale, any signs. -/
+theorem hull_scaled_mem (pts : List (V3 K)) (s p : V3 K) :
+    letI := fieldNum K sq
+    hullMem3 pts p → hullMem3 (scalePoints3 pts s) (p.cmul s) := by
+  letI := fieldNum K sq
+  show _ → hullMem3 (pts.map (fun q => q.cmul s)) (p.cmul s)
+  rintro ⟨w, hl, hnn, hsum, rfl⟩
+  refine ⟨w, by simpa using hl, hnn, hsum, ?_⟩
+  have := fold_scaled sq s pts w V3.zero
+  have hz : (V3.zero : V3 K).cmul s = V3.zero := by simp [V3.cmul, V3.zero]
+  rw [hz] at this
+  exact this.symm
+
+/-- … and conversely for a non-degenerate scale: the scaled polytope contains `s∘p` exactly when the original contains `p` -/
+theorem hull_scaled_mem_conv (pts : List (V3 K)) (s p : V3 K) (hx : s.x ≠ 0) (hy : s.y ≠ 0) (hz : s.z ≠ 0) :
+    letI := fieldNum K sq
+    hullMem3 (scalePoints3 pts s) (p.cmul s) → hullMem3 pts p := by
+  letI := fieldNum K sq
+  intro h
+  have h' : hullMem3 ((pts.map (fun q => q.cmul s)).map (fun q => q.cmul ⟨1 / s.x, 1 / s.y, 1 / s.z⟩))
+      ((p.cmul s).cmul ⟨1 / s.x, 1 / s.y, 1 / s.z⟩) :=
+    hull_scaled_mem sq (pts.map (fun q => q.cmul s)) ⟨1 / s.x, 1 / s.y, 1 / s.z⟩ (p.cmul s) h
+  have e1 : (pts.map (fun q => q.cmul s)).map (fun q => q.cmul ⟨1 / s.x, 1 / s.y, 1 / s.z⟩) = pts := by
+    rw [List.map_map]
+    conv_rhs => rw [← List.map_id pts]
+    apply List.map_congr_left
+    intro q _
+    simp only [Function.comp, V3.cmul, id]
+    cases q; simp only [V3.mk.injEq]; refine ⟨?_, ?_, ?_⟩ <;> field_simp
+  have e2 : (p.cmul s).cmul ⟨1 / s.x, 1 / s.y, 1 / s.z⟩ = p := by
+    simp only [V3.cmul]; cases p; simp only [V3.mk.injEq]; refine ⟨?_, ?_, ?_⟩ <;> field_simp
+  rw [e1, e2] at h'
+  exact h'
+
+example : (2:ℚ) ≠ 0 ∧ (-3:ℚ) ≠ 0 ∧ (1/4:ℚ) ≠ 0 := by norm_num
+
 end C19
